@@ -21,8 +21,8 @@ Definition run (t : Tree) : Tree :=
      | 0%Z => sort_order (tLZ (tnth t 2)) (tAxis (tnth t 3)) tb
      | 1%Z => sort (fun _ => tLZ (tnth t 2)) (tAxis (tnth t 3)) tb
      | 2%Z => align_to (tTable (tnth t 2)) (tMode (tnth t 3)) tb
-     | 3%Z => ROk (transpose_t tb)
-     | 4%Z => ROk (transpose_t (transpose_t tb))
+     | 3%Z => ROk (transpose_c tb)
+     | 4%Z => ROk (transpose_c (transpose_c tb))
      | 5%Z => ROk (copy tb)
      | 6%Z => update_ids (tPairs (tnth t 2)) (tAxis (tnth t 3)) (tB (tnth t 4)) (tB (tnth t 5)) tb
      | 7%Z => let a := tAxis (tnth t 3) in rbind (sort_order (tLZ (tnth t 2)) a tb) (sort_order (ids a tb) a)
